@@ -2,16 +2,564 @@
 
 package main
 
-type oracle struct {
-	now         int64
-	tombDamaged bool
+import (
+	"fmt"
+	"sort"
+	"strings"
+)
+
+// Independent oracle for C09: a per-key RFC 5011 reference written from the
+// property text. It never calls AutoTA's helpers; its inputs are the ground
+// truth of the scripted root (which private keys really signed the served
+// RRset), the faults the harness injected, and what can be observed of the
+// implementation from outside: the live trust set (before, while the DNSKEY
+// query is served, after), the decoded files, the refresh outcome counter.
+//
+// Reading of the property text used here
+//   * "accepted refresh": the response was authenticated (the run reached its
+//     persistence tail); presence streaks and the missing clock advance only
+//     on refreshes whose state-file replacement landed (otherwise nothing
+//     records them and the implementation restarts from its previous record,
+//     which is the safe direction).
+//   * "already-trusted non-revoked anchor": a key in the live trust set while
+//     the query is served; when that set is empty (fail-closed mode) the
+//     anchors of record: configured keys and Valid/Missing entries of the
+//     state file that no tombstone / marker covers.
+//   * a revocation is accepted when the refresh was accepted, the RRset has
+//     the REVOKE form of a trusted key, that form validly self-signed it and
+//     the implementation counted a revocation.
+
+type kid struct {
+	id    int
+	flags uint16
 }
 
-type preState struct{}
+func (k kref) kid() kid { return kid{k.id, k.flags} }
 
-func newOracle(cfg []kref) *oracle               { return &oracle{} }
-func (o *oracle) seeded(s *sim)                   {}
-func (o *oracle) before(s *sim, sp *runSpec) *preState { return &preState{} }
+type oracle struct {
+	now         int64
+	cfg         map[kid]bool
+	tombDamaged bool
+
+	streak   map[kid]int64  // start of the unbroken presence streak
+	broken   map[kid]string // why the last streak ended
+	earned   map[kid]bool
+	durable  map[int]bool   // material whose accepted revocation has a durable record
+	lostBy   map[int]string // durable record destroyed by: tombstone-unreadable | state-unreadable (open error or undecodable)
+	stateBad bool           // state file was replaced by garbage and not yet rewritten
+}
+
+func newOracle(cfg []kref) *oracle {
+	o := &oracle{cfg: map[kid]bool{}, streak: map[kid]int64{}, broken: map[kid]string{}, earned: map[kid]bool{},
+		durable: map[int]bool{}, lostBy: map[int]string{}}
+	for _, k := range cfg {
+		o.cfg[k.kid()] = true
+	}
+	return o
+}
+
+type entry struct {
+	key kref
+	st  string
+	age int64 // minutes
+}
+
+func parseObsState(s string) (map[uint16]entry, bool) {
+	out := map[uint16]entry{}
+	switch s {
+	case "absent", "corrupt", "unreadable":
+		return out, false
+	case "empty":
+		return out, true
+	}
+	for _, e := range strings.Split(s, ",") {
+		p := strings.Split(e, "/")
+		ref := p[0]
+		if i := strings.IndexByte(ref, '@'); i >= 0 {
+			ref = ref[:i]
+		}
+		q := strings.Split(ref, ".")
+		if len(q) != 3 {
+			continue
+		}
+		var id, fl, tg int
+		fmt.Sscan(q[0], &id)
+		fmt.Sscan(q[1], &fl)
+		fmt.Sscan(q[2], &tg)
+		var age int64
+		fmt.Sscan(p[2], &age)
+		out[uint16(tg)] = entry{key: kref{id: id, flags: uint16(fl), tag: uint16(tg)}, st: p[1], age: age}
+	}
+	return out, true
+}
+
+func parseObsTomb(s string) (map[int]bool, string) {
+	out := map[int]bool{}
+	switch s {
+	case "absent", "corrupt", "unreadable", "empty":
+		return out, s
+	}
+	for _, e := range strings.Split(s, ",") {
+		var id int
+		fmt.Sscan(e, &id)
+		out[id] = true
+	}
+	return out, "ok"
+}
+
+// seeded: files written by hand (legacy / previous installation). Records of
+// revocation found there are durable records.
+func (o *oracle) seeded(s *sim) {
+	st, _ := parseObsState(s.obsState())
+	for _, e := range st {
+		if e.st == "R" || e.st == "X" {
+			o.durable[e.key.id] = true
+		}
+		if e.st == "P" {
+			// a pending record of the previous installation: its hold-down
+			// started when that installation first saw the key
+			o.streak[e.key.kid()] = s.V - e.age*60
+		}
+		if e.st == "V" || e.st == "M" {
+			o.earned[e.key.kid()] = true
+		}
+	}
+	tb, _ := parseObsTomb(s.obsTomb())
+	for m := range tb {
+		o.durable[m] = true
+	}
+}
+
+type preState struct {
+	liveBefore  []kref
+	hadProc     bool
+	state       string
+	tomb        string
+	liveAtFetch []kref
+	fetched     bool
+}
+
+func (o *oracle) before(s *sim, sp *runSpec) *preState {
+	p := &preState{hadProc: s.r != nil, state: s.obsState(), tomb: s.obsTomb()}
+	if s.r != nil {
+		p.liveBefore = s.liveRefs()
+	} else {
+		p.liveBefore = nil
+	}
+	s.fetchProbe = func() {
+		p.fetched = true
+		p.liveAtFetch = s.liveRefs()
+	}
+	return p
+}
+
+func hasKey(l []kref, id int, flags uint16) bool {
+	for _, k := range l {
+		if k.id == id && k.flags == flags {
+			return true
+		}
+	}
+	return false
+}
+
+func hasMat(l []kref, id int) bool {
+	for _, k := range l {
+		if k.id == id {
+			return true
+		}
+	}
+	return false
+}
+
+func sameSet(a, b []kref) bool {
+	if len(a) != len(b) {
+		return false
+	}
+	x, y := append([]kref(nil), a...), append([]kref(nil), b...)
+	less := func(l []kref) func(i, j int) bool {
+		return func(i, j int) bool {
+			if l[i].id != l[j].id {
+				return l[i].id < l[j].id
+			}
+			return l[i].flags < l[j].flags
+		}
+	}
+	sort.Slice(x, less(x))
+	sort.Slice(y, less(y))
+	for i := range x {
+		if x[i].id != y[i].id || x[i].flags != y[i].flags {
+			return false
+		}
+	}
+	return true
+}
+
+func fail(sig, format string, a ...any) string {
+	return "FAIL sig=" + sig + " " + fmt.Sprintf(format, a...)
+}
+
+// recordOf reports whether the decoded files carry a record of m's revocation.
+func recordOf(stateObs, tombObs string, m int) bool {
+	tb, kind := parseObsTomb(tombObs)
+	if kind == "corrupt" {
+		return true // nothing can be trusted while the store is corrupt
+	}
+	if tb[m] {
+		return true
+	}
+	st, _ := parseObsState(stateObs)
+	for _, e := range st {
+		if e.key.id == m && (e.st == "R" || e.st == "X") {
+			return true
+		}
+	}
+	return false
+}
+
 func (o *oracle) after(s *sim, sp *runSpec, pre *preState, outcome string) (string, string) {
-	return "ok", ""
+	s.fetchProbe = nil
+	completed := sp.crash < 0
+	stateAfter, tombAfter := s.obsState(), s.obsTomb()
+	var liveAfter []kref
+	if completed {
+		liveAfter = s.liveRefs()
+	}
+	accepted := pre.fetched && (outcome == "ok" || outcome == "perr")
+
+	// which replacements landed (atomic-rename granularity)
+	tombLanded := accepted && !sp.fTombWr
+	stateLanded := accepted && !sp.fStateWr
+	if sp.crash >= 0 {
+		n := 0
+		if tombLanded {
+			n++
+			if sp.crash < n {
+				tombLanded = false
+			}
+		}
+		if stateLanded {
+			n++
+			if sp.crash < n {
+				stateLanded = false
+			}
+		}
+	}
+
+	// anchors the implementation may authenticate with
+	stBefore, stOK := parseObsState(pre.state)
+	tbBefore, tbKind := parseObsTomb(pre.tomb)
+	if sp.fStateRd {
+		stBefore, stOK = map[uint16]entry{}, false
+	}
+	var trusted []kref
+	if len(pre.liveAtFetch) > 0 {
+		trusted = pre.liveAtFetch
+	} else if pre.fetched {
+		markers := map[int]bool{}
+		for _, e := range stBefore {
+			if e.st == "R" || e.st == "X" {
+				markers[e.key.id] = true
+			}
+		}
+		add := func(k kref) {
+			if !k.sep() || k.revoked() || tbBefore[k.id] && !sp.fTombRd || markers[k.id] || hasKey(trusted, k.id, k.flags) {
+				return
+			}
+			trusted = append(trusted, k)
+		}
+		for _, e := range stBefore {
+			if e.st == "V" || e.st == "M" {
+				add(e.key)
+			}
+		}
+		for _, k := range s.cfg {
+			add(k)
+		}
+	}
+	_ = stOK
+	_ = tbKind
+
+	// ground-truth classification of the served RRset
+	full, revOnly := false, false
+	if !sp.fetchNone && len(sp.fetch) > 0 {
+		for _, sg := range sp.signers {
+			for _, t := range trusted {
+				if t.id == sg.id && t.tag == sg.tag && t.sep() && !t.revoked() {
+					full = true
+				}
+			}
+		}
+		if !full {
+			for _, sg := range sp.signers {
+				if sg.revoked() && hasKey(sp.fetch, sg.id, sg.flags) && hasKey(trusted, sg.id, sg.flags^0x80) {
+					revOnly = true
+				}
+			}
+		}
+	}
+	tags := "nt"
+	switch {
+	case !pre.fetched:
+		tags += ",nofetch"
+	case full:
+		tags += ",full"
+	case revOnly:
+		tags += ",revonly"
+	default:
+		tags += ",unauth"
+	}
+	if sp.fStateRd || sp.fTombRd || sp.fTombWr || sp.fStateWr {
+		tags += ",fault"
+	}
+	if sp.crash >= 0 {
+		tags += ",crash"
+	}
+	if accepted {
+		tags += ",accepted"
+	}
+
+	verdict := "ok"
+	flag := func(v string) {
+		if verdict == "ok" {
+			verdict = v
+		}
+	}
+
+	// ---- clause: a response no trusted key authenticates changes nothing
+	if pre.fetched && !full && !revOnly {
+		if accepted {
+			flag(fail("autota/unauthenticated/accepted", "signers=%s trusted=%s", joinRefs(sp.signers), joinRefs(trusted)))
+		}
+		if stateAfter != pre.state || tombAfter != pre.tomb {
+			flag(fail("autota/unauthenticated/files-changed", "state %s -> %s tomb %s -> %s", pre.state, stateAfter, pre.tomb, tombAfter))
+		}
+		if completed && !sameSet(liveAfter, pre.liveAtFetch) {
+			flag(fail("autota/unauthenticated/live-changed", "%s -> %s", joinRefs(pre.liveAtFetch), joinRefs(liveAfter)))
+		}
+	}
+
+	// ---- revocations accepted in this run (ground truth + the implementation's own counter)
+	var revokedNow []int
+	if accepted && (full || revOnly) && s.lastRevokedDelta > 0 {
+		for _, k := range sp.fetch {
+			if k.revoked() && k.sep() && hasKey(sp.signers, k.id, k.flags) && hasKey(trusted, k.id, k.flags^0x80) && !hasInt(revokedNow, k.id) {
+				revokedNow = append(revokedNow, k.id)
+			}
+		}
+	}
+	failClosedMandated := false
+	for _, m := range revokedNow {
+		if completed && hasMat(liveAfter, m) {
+			flag(fail("autota/revocation/still-trusted-after-acceptance", "material %d live=%s", m, joinRefs(liveAfter)))
+		}
+		if tombLanded || stateLanded {
+			o.durable[m] = true
+			delete(o.lostBy, m)
+		} else {
+			failClosedMandated = true
+			if completed && len(liveAfter) > 0 {
+				flag(fail("autota/both-writes-failed/not-fail-closed", "revocation of %d has no durable record but live=%s", m, joinRefs(liveAfter)))
+			}
+		}
+	}
+
+	// ---- clause: durable revocation records are never lost, revoked keys never live again
+	for m := range o.durable {
+		if !recordOf(stateAfter, tombAfter, m) {
+			cause := ""
+			switch {
+			case sp.fTombRd:
+				cause = "tombstone-unreadable"
+			case sp.fStateRd:
+				cause = "state-unreadable"
+			case o.stateBad:
+				cause = "state-unreadable"
+			}
+			if _, known := o.lostBy[m]; !known {
+				if cause == "" {
+					flag(fail("autota/revocation-record/lost", "material %d: state %s -> %s tomb %s -> %s", m, pre.state, stateAfter, pre.tomb, tombAfter))
+					cause = "unexplained"
+				}
+				o.lostBy[m] = cause
+			}
+		}
+		if completed && hasMat(liveAfter, m) {
+			cause := o.lostBy[m]
+			if cause == "" {
+				switch {
+				case sp.fTombRd:
+					cause = "tombstone-unreadable"
+				case sp.fStateRd:
+					cause = "state-unreadable"
+				case o.stateBad:
+					cause = "state-unreadable"
+				default:
+					cause = "record-ignored"
+				}
+			}
+			flag(fail("autota/"+cause+"/revoked-key-live-again", "material %d live=%s tomb %s -> %s", m, joinRefs(liveAfter), pre.tomb, tombAfter))
+		}
+	}
+
+	// ---- clause: revocation-only authentication completes that revocation and nothing else
+	if accepted && revOnly {
+		legit := func(k kref) bool {
+			return hasKey(sp.fetch, k.id, k.flags|0x80) && hasKey(sp.signers, k.id, k.flags|0x80)
+		}
+		if completed {
+			for _, k := range liveAfter {
+				if !hasKey(trusted, k.id, k.flags) {
+					flag(fail("autota/revocation-only/new-trust", "%s", k))
+				}
+			}
+			if !(failClosedMandated && len(liveAfter) == 0) {
+				for _, k := range trusted {
+					if !hasKey(liveAfter, k.id, k.flags) && !legit(k) {
+						flag(fail("autota/revocation-only/dropped-unrevoked-key", "%s", k))
+					}
+				}
+			}
+		}
+		if stateLanded {
+			stAfter, _ := parseObsState(stateAfter)
+			for tag, e := range stAfter {
+				b, ok := stBefore[tag]
+				switch {
+				case ok && b.key.kid() == e.key.kid() && b.st == e.st:
+				case ok && b.key.kid() == e.key.kid() && (b.st == "V" || b.st == "M") && e.st == "R" && legit(e.key):
+				case !ok && o.cfg[e.key.kid()] && e.st == "V":
+				case !ok && o.cfg[e.key.kid()] && e.st == "R" && legit(e.key):
+				case !ok && !stOK && hasKey(pre.liveBefore, e.key.id, e.key.flags) && e.st == "V":
+				case ok && b.key.kid() == e.key.kid() && (b.st == "V" || b.st == "M") && e.st == "V" && !stOK:
+				default:
+					flag(fail("autota/revocation-only/state-transition", "tag %d: %s/%s -> %s/%s", tag, b.key, b.st, e.key, e.st))
+				}
+			}
+			for tag, b := range stBefore {
+				if _, ok := stAfter[tag]; ok {
+					continue
+				}
+				switch {
+				case b.st == "R" || b.st == "X":
+				case (b.st == "V" || b.st == "M") && legit(b.key):
+				case tbBefore[b.key.id] && !sp.fTombRd: // tombstone precedence
+				case stBefore != nil && markerFor(stBefore, b.key.id):
+				default:
+					flag(fail("autota/revocation-only/entry-removed", "tag %d %s/%s", tag, b.key, b.st))
+				}
+			}
+		}
+	}
+
+	// ---- clause: corrupt revocation store fails closed
+	if pre.tomb == "corrupt" && !sp.fTombRd && completed && len(liveAfter) > 0 {
+		flag(fail("autota/corrupt-tombstones/not-fail-closed", "live=%s", joinRefs(liveAfter)))
+	}
+
+	// ---- clause: new keys need the 30-day hold-down in every accepted refresh
+	if accepted && full {
+		for _, k := range sp.fetch {
+			if t0, ok := o.streak[k.kid()]; ok && o.now-t0 > d30 {
+				o.earned[k.kid()] = true
+			}
+		}
+	}
+	if completed {
+		for _, k := range liveAfter {
+			switch {
+			case k.revoked():
+				flag(fail("autota/live/revoked-form-trusted", "%s", k))
+			case !k.sep():
+				flag(fail("autota/live/non-sep-key-trusted", "%s", k))
+			case o.cfg[k.kid()], o.earned[k.kid()]:
+			default:
+				why := "trusted-before-30d-of-unbroken-presence"
+				if o.broken[k.kid()] == "tag-collision" {
+					why = "absent-key-kept-pending-by-colliding-tag"
+				}
+				if pre.fetched && !hasKey(sp.fetch, k.id, k.flags) {
+					for _, f := range sp.fetch {
+						if f.tag == k.tag && f.sep() {
+							why = "absent-key-kept-pending-by-colliding-tag"
+						}
+					}
+				}
+				t0, ok := o.streak[k.kid()]
+				flag(fail("autota/add-holddown/"+why, "%s streak=%v since=%d now=%d", k, ok, t0, o.now))
+			}
+		}
+	}
+	if accepted && full && stateLanded {
+		inSet := map[kid]bool{}
+		for _, k := range sp.fetch {
+			inSet[k.kid()] = true
+			if _, ok := o.streak[k.kid()]; !ok {
+				o.streak[k.kid()] = o.now
+				delete(o.broken, k.kid())
+			}
+		}
+		for k := range o.streak {
+			if !inSet[k] {
+				delete(o.streak, k)
+				o.broken[k] = "absent"
+				t := tagOf(k.id, k.flags)
+				for _, f := range sp.fetch {
+					if f.tag == t && f.sep() {
+						o.broken[k] = "tag-collision"
+					}
+				}
+			}
+		}
+	}
+
+	// ---- clause: a key that merely disappears stays trusted for 90 days
+	if accepted && full && completed && !(failClosedMandated && len(liveAfter) == 0) {
+		for _, k := range trusted {
+			if hasKey(sp.fetch, k.id, k.flags) || hasInt(revokedNow, k.id) || o.durable[k.id] {
+				continue
+			}
+			if tbBefore[k.id] || markerFor(stBefore, k.id) {
+				continue
+			}
+			since := o.now
+			if e, ok := stBefore[k.tag]; ok && e.key.kid() == k.kid() && e.st == "M" {
+				since = o.now - e.age*60
+			}
+			if o.now-since <= d90 && !hasKey(liveAfter, k.id, k.flags) {
+				flag(fail("autota/missing/dropped-before-90d", "%s missing for %d s live=%s", k, o.now-since, joinRefs(liveAfter)))
+			}
+		}
+	}
+	// a trusted key that is present in a fully authenticated refresh stays trusted
+	if accepted && full && completed && !(failClosedMandated && len(liveAfter) == 0) {
+		for _, k := range trusted {
+			if hasKey(sp.fetch, k.id, k.flags) && !hasInt(revokedNow, k.id) && !o.durable[k.id] && !tbBefore[k.id] && !markerFor(stBefore, k.id) &&
+				!hasKey(liveAfter, k.id, k.flags) {
+				flag(fail("autota/present/trusted-key-dropped", "%s live=%s", k, joinRefs(liveAfter)))
+			}
+		}
+	}
+
+	if stateLanded {
+		o.stateBad = false
+	}
+	return verdict, tags
+}
+
+func markerFor(st map[uint16]entry, m int) bool {
+	for _, e := range st {
+		if e.key.id == m && (e.st == "R" || e.st == "X") {
+			return true
+		}
+	}
+	return false
+}
+
+func hasInt(l []int, x int) bool {
+	for _, v := range l {
+		if v == x {
+			return true
+		}
+	}
+	return false
 }
